@@ -598,8 +598,14 @@ def _collect_all_outputs(
     graph: Graph,
     sentinel: Any,
 ) -> dict[str, Any]:
-    """Return all graph outputs present in state, excluding emit sentinels."""
-    return {k: state.values[k] for k in graph.outputs if k in state.values and state.values[k] is not sentinel}
+    """Return all graph outputs present in state, excluding emit sentinels.
+
+    Emit-only names are excluded by name as well: with an entry point downstream
+    of their producer they are supplied by the caller, and that plain input is
+    no more a result than the sentinel is.
+    """
+    emit_only = graph._get_emit_only_outputs()
+    return {k: state.values[k] for k in graph.outputs if k in state.values and state.values[k] is not sentinel and k not in emit_only}
 
 
 def _collect_selected_outputs(
